@@ -1,7 +1,10 @@
 /* C19(1): completions/wake-ups posted to the event loop are delivered once each with their key and data.
  * Real: lib/async/async_runtime_epoll.c (init, post_completion, wakeup, wait).
- * Environment: eventfd with the kernel's semantics (write adds to a 64-bit counter; read returns the sum
- * and zeroes it, EAGAIN when zero); epoll reports the eventfd readable iff its counter is non-zero.
+ * Environment = the kernel objects the runtime may use as its notification carrier, with their documented semantics:
+ *  - eventfd: write adds to a 64-bit counter; read returns the sum and zeroes it, EAGAIN when zero;
+ *  - pipe (pipe2, O_NONBLOCK): a FIFO of bytes; a write of <= PIPE_BUF bytes is atomic; read returns up to n bytes,
+ *    EAGAIN when empty; modelled as a FIFO of 8-byte records with room for PIPE_RECS records (EAGAIN when full);
+ *  - epoll reports a registered descriptor readable iff its counter is non-zero / its FIFO is non-empty (level-triggered).
  * Posts from other threads are atomic write() calls, so "however posts interleave or pile up" = any
  * number/order of posts between two waits: here <= NP posts, each a completion or a wake-up.
  */
@@ -15,31 +18,62 @@
 
 #define EFD 7
 #define EPFD 5
-static uint64_t efd_counter; static int efd_registered;
+#define PRD 8
+#define PWR 9
+#define PIPE_RECS (NP + 2)
+static uint64_t efd_counter; static int efd_registered, prd_registered;
+static uint64_t pipe_rec[PIPE_RECS]; static int pipe_n;
 int epoll_create1 (int f) { (void) f; return EPFD; }
 int eventfd (unsigned init, int flags) { (void) flags; efd_counter = init; return EFD; }
-int epoll_ctl (int ep, int op, int fd, struct epoll_event *ev) { (void) ep; (void) ev; if (fd == EFD && op == EPOLL_CTL_ADD) efd_registered = 1; return 0; }
+int pipe2 (int fds[2], int flags) { (void) flags; fds[0] = PRD; fds[1] = PWR; pipe_n = 0; return 0; }
+int epoll_ctl (int ep, int op, int fd, struct epoll_event *ev)
+{
+  (void) ep; (void) ev;
+  if (fd == EFD && op == EPOLL_CTL_ADD) efd_registered = 1;
+  if (fd == PRD && op == EPOLL_CTL_ADD) prd_registered = 1;
+  return 0;
+}
 int close (int fd) { (void) fd; return 0; }
 ssize_t write (int fd, const void *buf, size_t n)
 {
   uint64_t v;
-  if (fd != EFD || n != 8) return -1;
+  if (n != 8) return -1;
   v = *(const uint64_t *) buf;
-  efd_counter += v;            /* kernel: values are added */
-  return 8;
+  if (fd == EFD) { efd_counter += v; return 8; }            /* kernel: values are added */
+  if (fd == PWR)
+    {
+      if (pipe_n >= PIPE_RECS) { errno = EAGAIN; return -1; }
+      pipe_rec[pipe_n++] = v;                                /* kernel: appended, atomically (8 <= PIPE_BUF) */
+      return 8;
+    }
+  return -1;
 }
 ssize_t read (int fd, void *buf, size_t n)
 {
-  if (fd != EFD || n < 8) return -1;
-  if (efd_counter == 0) { errno = EAGAIN; return -1; }
-  *(uint64_t *) buf = efd_counter; efd_counter = 0;
-  return 8;
+  int i;
+  if (n < 8) return -1;
+  if (fd == EFD)
+    {
+      if (efd_counter == 0) { errno = EAGAIN; return -1; }
+      *(uint64_t *) buf = efd_counter; efd_counter = 0;
+      return 8;
+    }
+  if (fd == PRD)
+    {
+      if (pipe_n == 0) { errno = EAGAIN; return -1; }
+      *(uint64_t *) buf = pipe_rec[0];
+      for (i = 1; i < PIPE_RECS; i++) pipe_rec[i - 1] = pipe_rec[i];
+      pipe_n--;
+      return 8;
+    }
+  return -1;
 }
 int epoll_wait (int ep, struct epoll_event *evs, int max, int timeout)
 {
   (void) ep; (void) timeout;
   if (max < 1) return 0;
   if (efd_registered && efd_counter != 0) { evs[0].events = EPOLLIN; evs[0].data.u64 = 0; evs[0].data.fd = EFD; return 1; }
+  if (prd_registered && pipe_n != 0) { evs[0].events = EPOLLIN; evs[0].data.u64 = 0; evs[0].data.fd = PRD; return 1; }
   return 0;
 }
 
@@ -61,8 +95,34 @@ void harness (void)
             ncomp++;
           }
       }
-  got = async_runtime_wait (rt, ev, NP + 2, 0);
-  VERIF_ASSERT ("C19.loop_wakes_up", got >= 1);
+#ifndef MAXEV
+#define MAXEV (NP + 2)
+#endif
+  /* the loop collects what was posted: waits of at most MAXEV events each until one returns nothing (<= NP + 1 waits);
+     the events of every wait are copied into ev[] at a concrete position (a symbolic destination exhausts the solver) */
+  {
+    int w, r, stop = 0; io_event_t one[MAXEV];
+    got = 0;
+    for (w = 0; w < NP + 1; w++)
+      if (!stop)
+        {
+          r = async_runtime_wait (rt, one, MAXEV, 0);
+          if (w == 0) VERIF_ASSERT ("C19.loop_wakes_up", r >= 1);
+          VERIF_ASSERT ("C19.wait_result_in_range", r >= 0 && r <= MAXEV);
+          if (r <= 0) stop = 1;
+          else
+            {
+              for (j = 0; j < MAXEV; j++)
+                if (j < r)
+                  {
+                    VERIF_ASSERT ("C19.not_more_events_than_posts", got < NP + 2);
+                    for (i = 0; i < NP + 2; i++) if (i == got) ev[i] = one[j];
+                    got++;
+                  }
+              if (w >= 1) VERIF_WITNESS ("second_wait_delivered");
+            }
+        }
+  }
   /* every posted completion is delivered exactly once with its key and data */
   for (i = 0; i < NP; i++)
     if (i < IN.n && !IN.is_wake[i])
